@@ -1,5 +1,5 @@
 (* C13 — capacity management is transparent, meets its bounds, and growth is bounded. *)
-Require Import LruV.T.TableA LruV.A.SpecA.
+Require Import LruV.T.TableA LruV.A.SpecA LruV.T.GrowthA.
 
 Definition cap_op (p : op) : bool := match p with Reserve _ | TryReserve _ | ShrinkTo _ | ShrinkToFit => true | _ => false end.
 
@@ -111,6 +111,15 @@ Proof.
   destruct (t_insert_growth E _ _ o t2 Hcons Ht) as (H1 & H2 & H3 & H4). repeat split; auto; lia.
 Qed.
 
+(* over whole histories (ReachG carries two ghost variables: the peak number of entries and the largest full
+   capacity granted to an explicit request): however long the cache churns, for every oracle, the table's full
+   capacity (and a fortiori capacity()) stays below max(4 x peak len, 16) or within what was explicitly requested *)
+Theorem C13_growth_bounded : forall E VS, 0 < E -> VS <= E -> forall s pk rq, ReachG E VS s pk rq ->
+  len s <= pk /\ (fullcap (tb s) < N.max (4 * pk) 16 \/ fullcap (tb s) <= rq) /\ capacity (tb s) <= fullcap (tb s).
+Proof.
+  intros E VS HE HV s pk rq HR. destruct (growth_bounded E VS HE HV s pk rq HR) as [H1 H2]. repeat split; auto. unfold capacity. lia.
+Qed.
+
 Example C13_example_reserve :
   let s := {| ents := []; cur := 0; maxs := 1000; tb := {| nb := 4; tombs := 0 |} |} in
   exists s', stepA 72 24 fixed s (Reserve 28) {| o_tomb := 0; o_reuse := false; o_alloc := true |} = Some (s', OUnit, rebuilt_ev s) /\ capacity (tb s') = 28.
@@ -123,4 +132,5 @@ Print Assumptions C13_shrink.
 Print Assumptions C13_shrink_to_fit.
 Print Assumptions C13_with_capacity_step.
 Print Assumptions C13_auto_growth.
+Print Assumptions C13_growth_bounded.
 Print Assumptions C13_pinned_shrink_refuted.
